@@ -213,14 +213,14 @@ func (r *Run) Violate(v Violation) {
 	}
 	path := r.writeReplay(v)
 	fmt.Printf("VIOLATION property=%s replay=%s\n", r.ID, path)
-	fmt.Printf("NOTE %s %s\n", sig, compact(v.Detail))
+	fmt.Printf("NOTE %s %s\n", sig, compact(noteOf(v.Detail)))
 }
 
 func compact(m map[string]interface{}) string {
 	b, _ := json.Marshal(m)
 	s := string(b)
-	if len(s) > 600 {
-		s = s[:600] + "..."
+	if len(s) > 300 {
+		s = s[:300] + "..."
 	}
 	return s
 }
@@ -477,3 +477,17 @@ func tail(s string, n int) string {
 
 // Hex is a small helper for case ids.
 func Hex(b []byte) string { return hex.EncodeToString(b) }
+
+// noteOf picks the human-readable parts of a violation detail for the NOTE line.
+func noteOf(d map[string]interface{}) map[string]interface{} {
+	out := map[string]interface{}{}
+	for _, k := range []string{"msg", "msgs", "fails", "why", "observed", "expected", "error"} {
+		if v, ok := d[k]; ok {
+			out[k] = v
+		}
+	}
+	if len(out) == 0 {
+		return d
+	}
+	return out
+}
